@@ -14,6 +14,10 @@ pub enum Base {
     Verify(usize),
     Nvid(usize),
     Report(usize),
+    Lend(usize),
+    Count(usize),
+    CallOwn(usize, u32, u8),
+    Arm(u32),
     /// build another, independent mock from the same clauses (its original gets the next slot)
     Twin,
 }
@@ -75,6 +79,43 @@ pub fn run_base(slots: &mut Vec<Option<Unimock>>, unwinding: bool, base: &Base) 
     let alive = |slots: &Vec<Option<Unimock>>, i: usize| i < slots.len() && slots[i].is_some();
     match *base {
         Base::Twin => unreachable!(),
+        Base::Arm(n) => {
+            ARMED_GLOBAL.store(n, std::sync::atomic::Ordering::SeqCst);
+            "ok".into()
+        }
+        Base::Lend(i) => {
+            if !alive(slots, i) {
+                return "invalid".into();
+            }
+            let u = slots[i].as_ref().unwrap();
+            let _lent: &Unimock = u.make_ref(u.clone());
+            "ok".into()
+        }
+        Base::Count(i) => {
+            if !alive(slots, i) {
+                return "invalid".into();
+            }
+            format!("{}", unimock::verif::shared_strong_count(slots[i].as_ref().unwrap()))
+        }
+        Base::CallOwn(i, m, a) => {
+            if !alive(slots, i) {
+                return "invalid".into();
+            }
+            let u = slots[i].take().unwrap();
+            // the instance lives in the scope of the call: it is dropped when the scope is
+            // left, normally or by unwinding (a second panic there aborts the process)
+            let mut result: Option<String> = None;
+            let r = catch_unwind(AssertUnwindSafe(|| {
+                let owned = u;
+                result = Some(show_val(do_call(&owned, m, a)));
+            }));
+            match (r, result) {
+                (Ok(()), Some(v)) => format!("{v}|ok"),
+                (Err(p), Some(v)) => format!("{v}|P:{}", esc(&panic_text(p))),
+                (Err(p), None) => format!("P:{}", esc(&panic_text(p))),
+                (Ok(()), None) => unreachable!(),
+            }
+        }
         Base::Call(i, m, a) => {
             if !alive(slots, i) {
                 return "invalid".into();
@@ -174,6 +215,10 @@ pub fn parse_event(tok: &str) -> Event {
         "nvid" => Base::Nvid(ix(1)),
         "report" => Base::Report(ix(1)),
         "twin" => Base::Twin,
+        "lend" => Base::Lend(ix(1)),
+        "count" => Base::Count(ix(1)),
+        "callown" => Base::CallOwn(ix(1), ix(2) as u32, ix(3) as u8),
+        "arm" => Base::Arm(ix(1) as u32),
         other => panic!("bad event {other}"),
     };
     Event {
@@ -185,6 +230,7 @@ pub fn parse_event(tok: &str) -> Event {
 
 /// Construct the mock (under catch_unwind) and run the events on it.
 pub fn run_events(mut make: impl FnMut() -> Unimock, events: &[Event], out: &mut impl Write) {
+    ARMED_GLOBAL.store(0, std::sync::atomic::Ordering::SeqCst);
     let made = catch_unwind(AssertUnwindSafe(&mut make));
     let u = match made {
         Ok(u) => u,
